@@ -15,7 +15,9 @@ grep -E "^(VIOLATION|KNOWN-FINDING|UNDECIDED|UNRESOLVED|FLOOR)" /tmp/cometlint.$
 grep -E "^(VIOLATION|KNOWN-FINDING|UNDECIDED|UNRESOLVED|FLOOR)" /tmp/cometlint.$$.tags | sed 's/^/[tags=verif] /'
 rm -f /tmp/cometlint.$$.386 /tmp/cometlint.$$.tags
 if [ -x ./selftest.sh ]; then
-  ./selftest.sh "$PROP" > /tmp/selftest.$$ 2>&1 || rc=$?
+  # informational: the outcome is recorded in the evidence (seeded_selftest); it never decides the property, because on a
+  # tree that was edited since the seeds were archived a seed may apply and mean something else
+  ./selftest.sh "$PROP" > /tmp/selftest.$$ 2>&1 || true
   cat /tmp/selftest.$$
   export VERIF_SELFTEST_SUMMARY="$(tail -1 /tmp/selftest.$$)"
   rm -f /tmp/selftest.$$
